@@ -876,6 +876,12 @@ func (f *FnEnc) convert(x Val, from, to types.Type) Val {
 			e.fact(tLe(tInt(0), ln))
 			if basicOf(sl.Elem()).Kind() == types.Uint8 {
 				e.fact(tEq(ln, app(SInt, "strlen", s)))
+				// the new bytes read back as the string (cells of the fresh array, current heap)
+				es, _ := e.scalarSort(sl.Elem())
+				c := e.cellComp(sl.Elem(), leaf{"", es, sl.Elem()})
+				fn := "|str-of " + typeKey(sl.Elem()) + "|"
+				e.declFun(fn, []Sort{c.Sort, SInt, SInt, SInt}, SStr)
+				e.fact(tEq(app(SStr, fn, e.lookup(f.st, c), r, tInt(0), ln), s))
 			} else {
 				e.fact(tLe(ln, app(SInt, "strlen", s)))
 			}
